@@ -38,7 +38,7 @@ def write(pid, header, imports, items, extra=""):
     print("wrote", pid, len(items), "theorems")
 
 
-IMP = "LV.Base LV.VV LV.VVFacts LV.Path LV.PathSpec LV.Prog LV.Objects LV.Exec LV.Atomic LV.Ops LV.Check LV.Ref LV.Outcome LV.Witness LV.SyncFacts LV.CheckFacts"
+IMP = "LV.Base LV.VV LV.VVFacts LV.Path LV.PathSpec LV.Prog LV.Objects LV.Exec LV.Atomic LV.Ops LV.Check LV.Ref LV.Outcome LV.Witness LV.SyncFacts LV.CheckFacts LV.ExecFacts LV.SyncMono"
 
 TABLE = {
  "C05": ("Deadlocks are reported exactly. Full statement: Definition C05_statement (not proved: needs DPOR completeness); refuted on this tree by the listed findings.", [
@@ -58,6 +58,10 @@ TABLE = {
     ("C07_mutex_handover", "mutex_handover", "everything before a release happens-before everything after the next acquisition"),
     ("C07_rw_write_handover", "rw_write_handover", "the same for an RwLock write guard"),
     ("C07_rw_read_handover", "rw_read_handover", "and for a read guard"),
+    ("C07_mutex_handover_global", "mutex_handover_global_ok", "GLOBAL: after a release, over ANY number of micro-steps of any threads (steps), the next acquisition of the free mutex succeeds and sees everything before the release"),
+    ("C07_rw_write_handover_global", "rwlock_write_handover_global", "GLOBAL: the same for an RwLock write guard, towards any later read or write acquisition"),
+    ("C07_rw_read_handover_global", "rwlock_read_handover_global", "GLOBAL: a read release happens-before any later write acquisition"),
+    ("C07_run_monotone", "run_mono", "every run of the model is monotone: thread clocks and object views only grow, objects keep their kind"),
  ]),
  "C08": ("Waiting primitives wake exactly on notification (local lemmas + refutations).", [
     ("C08_wait_needs_flag", "notify_wait2_acquires", "Notify::wait / join complete only with the flag set, consume it, and acquire the notifier's clock"),
@@ -65,6 +69,7 @@ TABLE = {
     ("C08_notify_publishes", "notify_post_publishes", "notify sets the flag and publishes the notifier's clock"),
     ("C08_notify_handover", "notify_handover", "the notifier's prior writes happen-before the woken thread's continuation"),
     ("C08_unpark_transfers", "threads_unpark_transfers", "unpark joins the unparker's clock into the target and leaves every other thread alone"),
+    ("C08_notify_handover_global", "notify_handover_global", "GLOBAL: a notification happens-before the wake-up that consumes it, whatever happens in between"),
     ("C08_D5_repaired", "D5_repaired", "D5 (repaired): unpark of a thread blocked in join stores a token instead of waking it"),
     ("C08_D11_repaired", "D11_repaired", "D11 (repaired): the park token is not lost when the thread blocks on / is woken by a lock"),
     ("C08_refuted_D14", "D14_deadlock_missed", "D14: park/unpark are not scheduling points"),
@@ -74,12 +79,15 @@ TABLE = {
     ("C09_recv_acquires", "recv_post_acquires", "a receive takes the oldest view, joins it, decrements the count"),
     ("C09_recv_empty_fails", "recv_post_empty_fails", "a receive that reaches its post-action on an empty channel is loom's internal failure, never a value"),
     ("C09_channel_handover", "channel_handover", "a send happens-before the receive that obtains it and every later receive"),
+    ("C09_channel_fifo_handover_global", "channel_fifo_handover_global", "GLOBAL FIFO: with n messages queued ahead, any receive that follows at least n other receives (over any steps) acquires the sender's clock"),
+    ("C09_channel_handover_global", "channel_handover_global", "GLOBAL: a send on a queue whose pending views already dominate the sender is acquired by the next receive, whatever happens in between"),
  ]),
  "C11": ("loom::sync::Arc: counter machine and drop ordering (local lemmas).", [
     ("C11_clone_counts", "arc_inc_post_no_transfer", "clone increments the count and transfers no causality"),
     ("C11_drop_publishes", "arc_dec_post_publishes", "a drop decrements the count and publishes its clock; the drop that reaches zero acquires all of them"),
     ("C11_drop_of_released_fails", "arc_dec_post_released_fails", "dropping at count 0 is loom's 'Arc is already released' failure"),
     ("C11_drop_handover", "arc_drop_handover", "every earlier drop of a handle happens-before the final drop"),
+    ("C11_drop_handover_global", "arc_drop_handover_global", "GLOBAL: a drop happens-before the final drop over any number of intermediate steps"),
     ("C11_get_mut_reads_count", "arc_get_mut_post_acquires", "get_mut / try_unwrap decide on the count at their step and acquire"),
     ("C11_strong_count_reads_count", "arc_count_post_acquires", "strong_count returns the count at its step"),
  ]),
